@@ -8,6 +8,7 @@ import (
 	"sort"
 	"strings"
 	"testing"
+	"time"
 
 	"pgregory.net/rapid"
 	"tags.cncf.io/container-device-interface/pkg/cdi"
@@ -260,7 +261,10 @@ func (s *c13State) labels(last string) (labels []string, nontrivial bool) {
 	return labels, nontrivial
 }
 
-func propC13(rec *stats.Rec, sc *scratch) func(t *rapid.T) {
+// propC13: auto=false - every step is followed by an explicit Refresh(); auto=true - an auto-refresh cache, no
+// forced rescan: the clauses must hold once the watcher has caught up ("the first refresh after its cause is gone"
+// is then the automatic one), and a directory may also leave by being renamed away.
+func propC13(rec *stats.Rec, sc *scratch, auto bool) func(t *rapid.T) {
 	return func(t *rapid.T) {
 		root := sc.dir()
 		defer os.RemoveAll(root)
@@ -293,12 +297,28 @@ func propC13(rec *stats.Rec, sc *scratch) func(t *rapid.T) {
 			}
 		}
 		s.markUsed()
-		cache, _ := cdi.NewCache(cdi.WithSpecDirs(l.Paths()...), cdi.WithAutoRefresh(false))
-		step, last := 0, "initial"
+		if auto {
+			waitForInotify()
+		}
+		cache, _ := cdi.NewCache(cdi.WithSpecDirs(l.Paths()...), cdi.WithAutoRefresh(auto))
+		if auto {
+			defer cache.Configure(cdi.WithAutoRefresh(false))
+			undecidedIfNoInotify(t, cache)
+		}
+		step, last, awaySeq := 0, "initial", 0
 		check := func(t *rapid.T) {
 			rerr := cache.Refresh()
-			if msg := c13Check(cache, s, rerr); msg != "" {
-				t.Fatalf("C13 violated after step %d (%s): %s\nlayout: %s", step, last, msg, canonJSON(s.describe()))
+			msg := c13Check(cache, s, rerr)
+			if auto {
+				// Refresh() does not rescan in auto mode: give the watcher up to 10 s
+				for start := time.Now(); msg != "" && time.Since(start) < 10*time.Second; {
+					time.Sleep(5 * time.Millisecond)
+					rerr = cache.Refresh()
+					msg = c13Check(cache, s, rerr)
+				}
+			}
+			if msg != "" {
+				t.Fatalf("C13 violated after step %d (%s, auto-refresh=%v): %s\nlayout: %s", step, last, auto, msg, canonJSON(s.describe()))
 			}
 			labels, nontriv := s.labels(last)
 			rec.Case(nontriv, canonJSON(s.describe()), func() any { return map[string]any{"step": step, "last": last, "state": s.describe()} }, labels...)
@@ -447,6 +467,27 @@ func propC13(rec *stats.Rec, sc *scratch) func(t *rapid.T) {
 				s.markUsed()
 				last = fmt.Sprintf("removeDir %s", l.Pool[i].Name)
 			},
+			"renameDirAway": func(t *rapid.T) { // an existing directory leaves its configured path in one rename
+				var cands []int
+				for i, d := range l.Pool {
+					if d.Exists && i > 0 && i < 4 {
+						cands = append(cands, i)
+					}
+				}
+				if len(cands) == 0 {
+					t.Skip("no directory to rename")
+				}
+				i := rapid.SampledFrom(cands).Draw(t, "which")
+				awaySeq++
+				if err := os.Rename(l.Path(i), filepath.Join(root, fmt.Sprintf("away%d", awaySeq))); err != nil {
+					t.Fatalf("VERIF-HARNESS: %v", err)
+				}
+				l.Pool[i].Exists = false
+				l.Pool[i].Files = map[string]*layout.File{}
+				l.Pool[i].Subdirs = map[string]map[string]*layout.File{}
+				s.markUsed()
+				last = fmt.Sprintf("renameDirAway %s", l.Pool[i].Name)
+			},
 			"recheck": func(t *rapid.T) { last = "recheck" }, // always enabled: rapid gives up when every drawn action skips
 			"":        check,
 		})
@@ -454,7 +495,11 @@ func propC13(rec *stats.Rec, sc *scratch) func(t *rapid.T) {
 }
 
 func TestC13Rapid(t *testing.T) {
-	rapid.Check(t, propC13(stats.For("C13", "rapid"), newScratch(t)))
+	rapid.Check(t, propC13(stats.For("C13", "rapid"), newScratch(t), false))
+}
+
+func TestC13Auto(t *testing.T) {
+	rapid.Check(t, propC13(stats.For("C13", "auto"), newScratch(t), true))
 }
 
 // ---------------------------------------------------------------- permission faults (unprivileged scan)
